@@ -132,8 +132,8 @@ func H_generate() {
 			vA("C17", len(r.Content) > 0, "a cleanly analysed package with injectors yields content")
 			vA("C17", vIff(len(r.Errs) > 0, fmtFails[i]), "only a gofmt failure adds an error to a package that analysed cleanly")
 			vA("C18", strings.Contains(txt, "//+build !wireinject\n") || strings.Contains(txt, "//go:build !wireinject\n"), "generated files always carry the !wireinject constraint, whatever the tags")
-			vA("C01,C17", strings.Contains(txt, fmt.Sprintf("\npackage p%d\n", i)), "generated file declares the package's own name")
-			vA("C17", strings.Contains(txt, fmt.Sprintf("func Inject%d() {}", i)), "each package's content is its own (results of one invocation do not share storage)")
+			vA("C01,C17,C16", strings.Contains(txt, fmt.Sprintf("\npackage p%d\n", i)), "generated file declares the package's own name")
+			vA("C17,C16", strings.Contains(txt, fmt.Sprintf("func Inject%d() {}", i)), "each package's content is its own whatever else is processed in the same invocation (results do not share storage)")
 			if withHeader {
 				// the header leads the file; whether it went through gofmt with the rest is not prescribed
 				hdr := "// HEADER\n"
